@@ -35,9 +35,64 @@ func (m mathRnd) Intn(n int) int {
 // span more than one 64-bit word.
 func drawTaxa(rt *rapid.T, min, max int) int {
 	if rapid.IntRange(0, 15).Draw(rt, "wide") == 15 {
+		// half of the wide cases sit on or next to a 64-bit word boundary
+		if rapid.Bool().Draw(rt, "boundary") {
+			return rapid.SampledFrom([]int{63, 64, 65, 127, 128, 129}).Draw(rt, "ntaxboundary")
+		}
 		return rapid.IntRange(60, 130).Draw(rt, "ntaxwide")
 	}
 	return rapid.IntRange(min, max).Draw(rt, "ntax")
+}
+
+// drawTaxaNames draws n distinct taxon names under one of several naming schemes: plain (t0, t1, ...), numeric mixed with
+// alphanumeric (2, 10, 1a, 10a: numeric and text order disagree), prefix-heavy (a, aa, aab, ab: names that are prefixes of
+// each other and whose concatenations collide).
+func drawTaxaNames(rt *rapid.T, n int) []string {
+	switch rapid.IntRange(0, 7).Draw(rt, "naming") {
+	case 6:
+		var out []string
+		for i := 0; i < n; i++ {
+			k := 1 + i*7%23 + (i/23)*23
+			switch i % 3 {
+			case 0:
+				out = append(out, strconv.Itoa(k))
+			case 1:
+				out = append(out, strconv.Itoa(k)+"a")
+			default:
+				out = append(out, strconv.Itoa(k*10))
+			}
+		}
+		return dedupNames(out)
+	case 7:
+		var out []string
+		alphabet := []string{"a", "b", "s", "t"}
+		for i := 0; len(out) < n; i++ {
+			// all words over a small alphabet in length-lexicographic order: a, b, s, t, aa, ab, ...
+			w, k := "", i
+			for {
+				w = alphabet[k%4] + w
+				k = k/4 - 1
+				if k < 0 {
+					break
+				}
+			}
+			out = append(out, w)
+		}
+		return out
+	}
+	return taxa(n, "t")
+}
+
+func dedupNames(xs []string) []string {
+	seen := map[string]bool{}
+	for i, x := range xs {
+		for seen[x] {
+			x += "x"
+		}
+		seen[x] = true
+		xs[i] = x
+	}
+	return xs
 }
 
 func taxa(n int, prefix string) []string {
